@@ -42,6 +42,8 @@ import (
 //	do.f-kf     do; println b; break; finally; println f; X; println m; end        (a break is pending; only inside a loop)
 //	do.f-cf     do; println b; throw :a; catch :a; println c; finally; println f; X; println m; end
 //	defer       defer println d; X; println m
+//	expr        q := 100 + do; println b; X; println m; 1; end; println(q)    (the hole is inside an expression
+//	            whose left operand is already on the value stack)
 //	if.t        if p > 0; println t; X; println m; else; println e; end
 //	if.e        if p > 1; println t; else; println e; X; println m; end
 //	seq.before  do; println b; catch :a; println c; finally; println f; end; X
@@ -51,7 +53,7 @@ var CFVariants = []string{
 	"do.b-c", "do.b-cf", "do.b-cyf", "do.b-f",
 	"do.c-c", "do.c-cf", "do.y-cy", "do.y-cyf",
 	"do.f-f", "do.f-tf", "do.f-rf", "do.f-kf", "do.f-cf",
-	"defer", "if.t", "if.e", "seq.before", "seq.after",
+	"defer", "expr", "if.t", "if.e", "seq.before", "seq.after",
 }
 
 // CFExits lists the exit kinds in enumeration order. The "?" forms are guarded by `if k >= 2` on the
@@ -71,6 +73,14 @@ type CFOpts struct {
 	Param bool
 	// Keep, when set, filters chains (outermost first) before exits are enumerated.
 	Keep func(chain []string) bool
+}
+
+// CFCore is a subset of CFVariants without the near-duplicates (one loop form of each kind, the richest
+// clause set for each hole position); it is used where the full product is too large.
+var CFCore = []string{
+	"loop", "lloop", "vloop",
+	"do.b-cyf", "do.b-f", "do.c-cf", "do.y-cyf", "do.f-tf", "do.f-rf", "do.f-cf",
+	"defer", "expr", "if.t", "seq.before",
 }
 
 // CFCase is one generated function.
@@ -227,9 +237,19 @@ func (g *cfGen) build(chain []string, exit string, loops []cfLoop) *CFCase {
 		panic("mini: unknown exit " + exit)
 	}
 	x := tag("leaf", "exit", len(chain)+1, "x")
+	inExpr := false
+	for _, v := range chain {
+		if v == "expr" {
+			inExpr = true
+		}
+	}
 	switch {
 	case ex == nil:
 		leaf = []Stmt{x}
+	case inExpr && !strings.HasPrefix(exit, "?"):
+		// inside an expression block the unconditional exit is hidden behind a guard that is always true at run
+		// time (`if p > 0`): otherwise the checker types the block as `never` and rejects the use of its value
+		leaf = []Stmt{&If{C: &Bin{Op: ">", L: &Var{Name: "p"}, R: &Int{V: 0}}, Then: []Stmt{ex}}}
 	case strings.HasPrefix(exit, "?"):
 		inner := loops[len(loops)-1]
 		leaf = []Stmt{&If{C: &Bin{Op: ">=", L: &Var{Name: inner.ctr}, R: &Int{V: 2}}, Then: []Stmt{ex}}, x}
@@ -238,7 +258,7 @@ func (g *cfGen) build(chain []string, exit string, loops []cfLoop) *CFCase {
 	}
 	body := leaf
 	for i := len(chain) - 1; i >= 0; i-- {
-		body = cfWrap(chain[i], i+1, body, tag)
+		body = cfWrap(chain[i], i+1, body, tag, inExpr)
 	}
 	d := &Def{Name: "f", Ret: TInt}
 	var pre []Stmt
@@ -258,7 +278,15 @@ func (g *cfGen) build(chain []string, exit string, loops []cfLoop) *CFCase {
 }
 
 // cfWrap builds one construct around the hole content x.
-func cfWrap(variant string, n int, x []Stmt, tag func(role, variant string, level int, name string) *Print) []Stmt {
+// guard: the constructs' own throw/return/break statements are hidden behind `if p > 0` (always true) when the
+// chain contains an expression block, for the same reason as the exit.
+func cfWrap(variant string, n int, x []Stmt, tag func(role, variant string, level int, name string) *Print, guard bool) []Stmt {
+	g := func(s Stmt) Stmt {
+		if !guard {
+			return s
+		}
+		return &If{C: &Bin{Op: ">", L: &Var{Name: "p"}, R: &Int{V: 0}}, Then: []Stmt{s}}
+	}
 	t := func(role, letter string) Stmt { return tag(role, variant, n, fmt.Sprintf("%s%d", letter, n)) }
 	seq := func(parts ...any) []Stmt {
 		var out []Stmt
@@ -302,25 +330,31 @@ func cfWrap(variant string, n int, x []Stmt, tag func(role, variant string, leve
 	case "do.b-f":
 		return []Stmt{&Do{Body: hole(b()), Finally: f1()}}
 	case "do.c-c":
-		return []Stmt{&Do{Body: seq(b(), &Throw{Sym: "a"}), Catches: []Catch{ca(hole(t("catch", "c")))}}}
+		return []Stmt{&Do{Body: seq(b(), g(&Throw{Sym: "a"})), Catches: []Catch{ca(hole(t("catch", "c")))}}}
 	case "do.c-cf":
-		return []Stmt{&Do{Body: seq(b(), &Throw{Sym: "a"}), Catches: []Catch{ca(hole(t("catch", "c")))}, Finally: f1()}}
+		return []Stmt{&Do{Body: seq(b(), g(&Throw{Sym: "a"})), Catches: []Catch{ca(hole(t("catch", "c")))}, Finally: f1()}}
 	case "do.y-cy":
-		return []Stmt{&Do{Body: seq(b(), &Throw{Sym: "b"}), Catches: []Catch{ca(c1()), cy(hole(t("catch-all", "y")))}}}
+		return []Stmt{&Do{Body: seq(b(), g(&Throw{Sym: "b"})), Catches: []Catch{ca(c1()), cy(hole(t("catch-all", "y")))}}}
 	case "do.y-cyf":
-		return []Stmt{&Do{Body: seq(b(), &Throw{Sym: "b"}), Catches: []Catch{ca(c1()), cy(hole(t("catch-all", "y")))}, Finally: f1()}}
+		return []Stmt{&Do{Body: seq(b(), g(&Throw{Sym: "b"})), Catches: []Catch{ca(c1()), cy(hole(t("catch-all", "y")))}, Finally: f1()}}
 	case "do.f-f":
 		return []Stmt{&Do{Body: seq(b()), Finally: hole(t("finally", "f"))}}
 	case "do.f-tf":
-		return []Stmt{&Do{Body: seq(b(), &Throw{Sym: "a"}), Finally: hole(t("finally", "f"))}}
+		return []Stmt{&Do{Body: seq(b(), g(&Throw{Sym: "a"})), Finally: hole(t("finally", "f"))}}
 	case "do.f-rf":
-		return []Stmt{&Do{Body: seq(b(), &Return{E: &Int{V: 5}}), Finally: hole(t("finally", "f"))}}
+		return []Stmt{&Do{Body: seq(b(), g(&Return{E: &Int{V: 5}})), Finally: hole(t("finally", "f"))}}
 	case "do.f-kf":
-		return []Stmt{&Do{Body: seq(b(), &Break{}), Finally: hole(t("finally", "f"))}}
+		return []Stmt{&Do{Body: seq(b(), g(&Break{})), Finally: hole(t("finally", "f"))}}
 	case "do.f-cf":
-		return []Stmt{&Do{Body: seq(b(), &Throw{Sym: "a"}), Catches: []Catch{ca(c1())}, Finally: hole(t("finally", "f"))}}
+		return []Stmt{&Do{Body: seq(b(), g(&Throw{Sym: "a"})), Catches: []Catch{ca(c1())}, Finally: hole(t("finally", "f"))}}
 	case "defer":
 		return seq(&Defer{Tag: fmt.Sprintf("d%d", n)}, x, t("after-hole", "m"))
+	case "expr":
+		q := fmt.Sprintf("q%d", n)
+		return []Stmt{
+			&Let{Name: q, E: &Bin{Op: "+", L: &Int{V: 100}, R: &Block{Body: hole(t("expr-block", "b")), Res: &Int{V: 1}}}},
+			&PrintE{E: &Var{Name: q}},
+		}
 	case "if.t":
 		return []Stmt{&If{C: &Bin{Op: ">", L: &Var{Name: "p"}, R: &Int{V: 0}}, Then: hole(t("if-then", "t")), Else: []Stmt{t("if-else", "e")}}}
 	case "if.e":
